@@ -599,9 +599,9 @@ theorem lower_ty_sound (S : DRing K) (d : Nat) (hd : d = 1 ∨ d = 2 ∨ d = 3) 
                   ih x (by simp [hx]) τa tx (tyAll_mem d τa rest hall x hx) hlx)
               have hs := sum_members S d lg τa rest trest Fg
               simp only [foldV] at hl
-              have := foldAdd_sound S d τa trest ta t ga.1 hs.1 hl
+              have := foldAdd_soundR S d τa trest ta t ga.1 hs.1 hl
               refine ⟨this.1, fun i j hij => ?_⟩
-              rw [this.2 i j, ga.2 i j hij, hs.2 i j hij]
+              rw [this.2 i j hij, ga.2 i j hij, hs.2 i j hij]
               simp only [denG, denGSum]
           · cases hty
   | mul as ih =>
@@ -713,7 +713,7 @@ theorem lower_ty_shape (d : Nat) (hd : d = 1 ∨ d = 2 ∨ d = 3) (lg : Bool) (e
     (hty : ty d e = some τ) (hl : lower d lg e = .ok t) : hasShape d τ t = true :=
   (lower_ty_sound trivialRing d hd lg e τ t hty hl).1
 
-/-! ### on the fragment, in dimension 2 and 3, lowering does not fail -/
+/-! ### on the fragment lowering does not fail -/
 
 theorem forall2_right_all (P : E → Prop) (as ts : List E)
     (F : List.Forall₂ (fun (_ : E) t => P t) as ts) : ∀ x ∈ ts, P x := by
@@ -734,12 +734,10 @@ theorem lowerList_total (d : Nat) (lg : Bool) (as : List E)
     obtain ⟨ts, hts⟩ := ih (fun x hx => h x (by simp [hx]))
     exact ⟨t :: ts, by simp [lowerList, ht, hts, bind, Except.bind]⟩
 
-/-- **totality**: in dimension 2 and 3 the dispatcher returns a value for every well-typed
-    expression of the fragment (in dimension 1 it does not: `grad(h) + F`) -/
-theorem lower_ty_total (d : Nat) (hd : d = 2 ∨ d = 3) (lg : Bool) (e : E) (τ : Ty)
+/-- **totality**: in dimension 1, 2 and 3 the dispatcher returns a value for every well-typed
+    expression of the fragment (in dimension 1 since the repair of the `Add` branch: `grad(h) + F`) -/
+theorem lower_ty_total_all (d : Nat) (hd3 : d = 1 ∨ d = 2 ∨ d = 3) (lg : Bool) (e : E) (τ : Ty)
     (hty : ty d e = some τ) : ∃ t, lower d lg e = .ok t := by
-  have hd3 : d = 1 ∨ d = 2 ∨ d = 3 := Or.inr hd
-  have hd1 : d ≠ 1 := by omega
   have hd1' : 1 ≤ d := by omega
   induction e using E.rec
     (motive_2 := fun as => ∀ a ∈ as, ∀ τ, ty d a = some τ → ∃ t, lower d lg a = .ok t)
@@ -779,7 +777,7 @@ theorem lower_ty_total (d : Nat) (hd : d = 2 ∨ d = 3) (lg : Bool) (e : E) (τ 
               forall2_members d lg _ rest trest Frest (fun x hx tx hlx =>
                 lower_ty_shape d hd3 lg x τa tx (tyAll_mem d τa rest hall x hx) hlx)
             have hs : ∀ x ∈ trest, hasShape d τa x = true := forall2_right_all _ rest trest Fs
-            obtain ⟨t, ht⟩ := foldAdd_total trivialRing d hd1 τa trest ta hsa hs
+            obtain ⟨t, ht⟩ := foldAdd_total_all trivialRing d τa trest ta hsa hs
             exact ⟨t, by simp [lower, hts, foldV, ht, bind, Except.bind]⟩
         · cases hty
   | mul as ih =>
@@ -871,5 +869,10 @@ theorem lower_ty_total (d : Nat) (hd : d = 2 ∨ d = 3) (lg : Bool) (e : E) (τ 
     · exact iha τ' hτ'
     · exact ihas x hx τ' hτ'
   | _ => simp [ty] at hty
+
+/-- the special case d = 2, 3 (statement kept for Props/C11.lean) -/
+theorem lower_ty_total (d : Nat) (hd : d = 2 ∨ d = 3) (lg : Bool) (e : E) (τ : Ty)
+    (hty : ty d e = some τ) : ∃ t, lower d lg e = .ok t :=
+  lower_ty_total_all d (Or.inr hd) lg e τ hty
 
 end Sympde.Lower
